@@ -136,15 +136,16 @@ class Nested(GR.Graph):
 def stage1_histories(graph, k, keep, which, step_modes):
     """Stage-1 histories of `graph` that fix every variable but `keep`.
 
-    which = "extreme": the coarsest grouping (one keyword step) and the finest (one variable per keyword step, in the
-                       joint's parameter order);
+    which = "onestep": the coarsest grouping (all other variables in one keyword step);
+    which = "finest":  the finest grouping (one variable per keyword step, in the joint's parameter order);
+    which = "extreme": both of them;
     which = "all":     every ordered set partition of the other variables x every passing mode of step_modes
                        (the same histories the one-stage explorer enumerates; parameter orders are read off the
                        real intermediate objects)."""
     others = [n for n in graph.free if n != keep]
-    if which == "extreme":
-        out = [(("kw", tuple(others)),)]
-        if len(others) > 1:
+    if which in ("extreme", "onestep", "finest"):
+        out = [(("kw", tuple(others)),)] if which != "finest" else []
+        if which != "onestep" and (len(others) > 1 or not out):
             out.append(tuple(("kw", (n,)) for n in others))
         return out
     import itertools
